@@ -11,18 +11,23 @@ Lemma gen_det_ok :
   GenC10.det_start_guarded = true /\
   GenC10.det_cmp_le = true /\ GenC10.det_hash_bytes = 4 /\
   GenC10.det_rate_from_config = true /\ GenC10.det_returns_rate = true /\
-  GenC10.det_hash_of_traceid_and_salt = true.
+  GenC10.det_hash_of_traceid_and_salt = true /\ GenC10.det_get_shape = true /\
+  GenC10.det_max = DET_MAX /\ GenC10.det_conv_bits = DET_BITS /\ GenC10.det_always_le = DET_ALWAYS /\
+  GenC10.det_cmp_le = DET_LE /\ GenC10.det_hash_bytes = DET_HASH_BYTES /\ GenC10.det_salt = DET_SALT.
 Proof. repeat split; reflexivity. Qed.
 
 Lemma gen_stress_ok :
   GenC10.stress_max = 18446744073709551615 /\ GenC10.stress_zero_becomes = 1 /\
-  GenC10.stress_always_le = 1 /\ GenC10.stress_cmp_le = true.
+  GenC10.stress_always_le = 1 /\ GenC10.stress_cmp_le = true /\
+  GenC10.stress_rate_shape = true /\ GenC10.stress_bound_shape = true /\ GenC10.stress_get_shape = true /\
+  GenC10.stress_max = STRESS_MAX /\ GenC10.stress_zero_becomes = STRESS_ZERO /\
+  GenC10.stress_always_le = STRESS_ALWAYS /\ GenC10.stress_cmp_le = STRESS_LE /\ GenC10.stress_seed = STRESS_SEED.
 Proof. repeat split; reflexivity. Qed.
 
 (* the numerator is the largest hash value: hashes are det_hash_bytes bytes wide *)
-Lemma det_max_is_top : GenC10.det_max = det_hash_range - 1.
+Lemma det_max_is_top : DET_MAX = det_hash_range - 1.
 Proof. reflexivity. Qed.
-Lemma stress_max_is_top : GenC10.stress_max = stress_hash_range - 1.
+Lemma stress_max_is_top : STRESS_MAX = stress_hash_range - 1.
 Proof. reflexivity. Qed.
 
 (* ---------- threshold arithmetic, generic ---------- *)
@@ -88,7 +93,7 @@ Lemma det_start_in_range rate :
   det_start rate = Some {| d_rate := rate; d_bound := 4294967295 / rate |}.
 Proof.
   intros Hr. unfold det_start, det_bound, gen_bound, conv_u.
-  change GenC10.det_conv_bits with 32. change GenC10.det_max with 4294967295.
+  change DET_BITS with 32. change DET_MAX with 4294967295.
   change (2 ^ 32) with 4294967296. rewrite !Z.mod_small by lia.
   destruct (4294967295 <? rate) eqn:E0; [apply Z.ltb_lt in E0; lia|].
   destruct (1 <? rate) eqn:E1.
@@ -98,18 +103,18 @@ Qed.
 
 Lemma det_sample_in_range rate h :
   1 <= rate < 4294967296 ->
-  det_sample rate h = Some (if rate <=? 1 then 1 else rate, spec_keep GenC10.det_max rate h).
+  det_sample rate h = Some (if rate <=? 1 then 1 else rate, spec_keep DET_MAX rate h).
 Proof.
   intros Hr. unfold det_sample. rewrite det_start_in_range by exact Hr.
   unfold det_get, gen_get, spec_keep, thr_cmp. cbn [d_rate d_bound].
-  change GenC10.det_always_le with 1. change GenC10.det_cmp_le with true.
-  change GenC10.det_max with 4294967295.
+  change DET_ALWAYS with 1. change DET_LE with true.
+  change DET_MAX with 4294967295.
   destruct (rate <=? 1) eqn:E; [reflexivity|].
   cbn [orb]. rewrite thr_iff by lia. reflexivity.
 Qed.
 
 Lemma det_keep_in_range rate h :
-  1 <= rate < 4294967296 -> det_keep rate h = spec_keep GenC10.det_max rate h.
+  1 <= rate < 4294967296 -> det_keep rate h = spec_keep DET_MAX rate h.
 Proof. intros Hr. unfold det_keep. rewrite det_sample_in_range by exact Hr. reflexivity. Qed.
 
 Lemma det_total_in_range rate h : 1 <= rate < 4294967296 -> det_sample rate h <> None.
@@ -122,7 +127,7 @@ Proof.
   intros Hr. unfold det_sample. destruct (det_start rate) as [i|] eqn:S; [|discriminate].
   unfold det_start in S. destruct (det_bound _ _ rate) as [b|]; [|discriminate].
   injection S as <-. unfold det_get, gen_get. cbn [d_rate d_bound].
-  change GenC10.det_always_le with 1.
+  change DET_ALWAYS with 1.
   destruct (rate <=? 1) eqn:E; [|apply Z.leb_gt in E; lia].
   intros [= <- <-]. split; reflexivity.
 Qed.
@@ -144,28 +149,28 @@ Proof. intros H1 H2. rewrite H1 in H2. injection H2 as <-. reflexivity. Qed.
 
 Lemma det_keep_as_bound rate h :
   1 <= rate < 4294967296 -> 0 <= h < det_hash_range ->
-  det_keep rate h = (h <=? GenC10.det_max / rate).
+  det_keep rate h = (h <=? DET_MAX / rate).
 Proof.
   intros Hr Hh. rewrite det_keep_in_range by exact Hr. unfold spec_keep.
   rewrite thr_iff by lia.
   destruct (rate <=? 1) eqn:E; [|reflexivity].
   apply Z.leb_le in E. assert (rate = 1) as -> by lia. cbn [orb].
   symmetry. apply Z.leb_le. change det_hash_range with 4294967296 in Hh.
-  change GenC10.det_max with 4294967295. lia.
+  change DET_MAX with 4294967295. lia.
 Qed.
 
 Lemma det_fraction rate :
   1 <= rate < 4294967296 ->
   let kept := countN (det_keep rate) (Z.to_N det_hash_range) in
-  kept = GenC10.det_max / rate + 1 /\
+  kept = DET_MAX / rate + 1 /\
   det_hash_range <= rate * kept <= det_hash_range + rate - 1.
 Proof.
   intros Hr kept. subst kept.
-  rewrite (countN_ext (det_keep rate) (fun h => h <=? GenC10.det_max / rate)).
+  rewrite (countN_ext (det_keep rate) (fun h => h <=? DET_MAX / rate)).
   2:{ intros k Hk. apply det_keep_as_bound; [exact Hr|].
       change det_hash_range with 4294967296 in *. lia. }
-  pose proof (count_threshold GenC10.det_max rate) as H.
-  change GenC10.det_max with 4294967295 in *. change det_hash_range with 4294967296.
+  pose proof (count_threshold DET_MAX rate) as H.
+  change DET_MAX with 4294967295 in *. change det_hash_range with 4294967296.
   change (4294967295 + 1) with 4294967296 in H.
   specialize (H ltac:(lia) ltac:(lia)). cbv zeta in H. lia.
 Qed.
@@ -175,7 +180,7 @@ Lemma det_start_total rate :
   -9223372036854775808 <= rate < 9223372036854775808 -> det_start rate <> None.
 Proof.
   intros Hr. unfold det_start, det_bound, gen_bound, conv_u.
-  change GenC10.det_conv_bits with 32. change GenC10.det_max with 4294967295.
+  change DET_BITS with 32. change DET_MAX with 4294967295.
   change (2 ^ 32) with 4294967296.
   destruct (4294967295 <? rate mod 18446744073709551616) eqn:E0; [discriminate|].
   destruct (1 <? rate) eqn:E1; [|discriminate].
@@ -190,21 +195,21 @@ Lemma det_big_rate rate h :
   det_sample rate h = Some (rate, h <=? 0).
 Proof.
   intros Hr. unfold det_sample, det_start, det_bound.
-  change GenC10.det_max with 4294967295. rewrite Z.mod_small by lia.
+  change DET_MAX with 4294967295. rewrite Z.mod_small by lia.
   destruct (4294967295 <? rate) eqn:E0; [|apply Z.ltb_ge in E0; lia].
   unfold det_get, gen_get, thr_cmp. cbn [d_rate d_bound].
-  change GenC10.det_always_le with 1. change GenC10.det_cmp_le with true.
+  change DET_ALWAYS with 1. change DET_LE with true.
   destruct (rate <=? 1) eqn:E; [apply Z.leb_le in E; lia|reflexivity].
 Qed.
 
 (* ---------- stress relief ---------- *)
 Lemma stress_sample_spec cfg h :
   0 <= cfg < 18446744073709551616 ->
-  stress_sample cfg h = (if cfg <=? 1 then 1 else cfg, spec_keep GenC10.stress_max cfg h).
+  stress_sample cfg h = (if cfg <=? 1 then 1 else cfg, spec_keep STRESS_MAX cfg h).
 Proof.
   intros Hc. unfold stress_sample, stress_update, stress_get, gen_get, spec_keep, thr_cmp.
-  change GenC10.stress_zero_becomes with 1. change GenC10.stress_always_le with 1.
-  change GenC10.stress_cmp_le with true. change GenC10.stress_max with 18446744073709551615.
+  change STRESS_ZERO with 1. change STRESS_ALWAYS with 1.
+  change STRESS_LE with true. change STRESS_MAX with 18446744073709551615.
   destruct (cfg =? 0) eqn:E0.
   - apply Z.eqb_eq in E0. subst cfg. reflexivity.
   - apply Z.eqb_neq in E0. cbn [s_rate s_bound].
@@ -228,28 +233,28 @@ Qed.
 
 Lemma stress_keep_as_bound cfg h :
   1 <= cfg < 18446744073709551616 -> 0 <= h < stress_hash_range ->
-  stress_keep cfg h = (h <=? GenC10.stress_max / cfg).
+  stress_keep cfg h = (h <=? STRESS_MAX / cfg).
 Proof.
   intros Hr Hh. unfold stress_keep. rewrite stress_sample_spec by lia. cbn [snd].
   unfold spec_keep. rewrite thr_iff by lia.
   destruct (cfg <=? 1) eqn:E; [|reflexivity].
   apply Z.leb_le in E. assert (cfg = 1) as -> by lia. cbn [orb].
   symmetry. apply Z.leb_le. change stress_hash_range with 18446744073709551616 in Hh.
-  change GenC10.stress_max with 18446744073709551615. lia.
+  change STRESS_MAX with 18446744073709551615. lia.
 Qed.
 
 Lemma stress_fraction cfg :
   1 <= cfg < 18446744073709551616 ->
   let kept := countN (stress_keep cfg) (Z.to_N stress_hash_range) in
-  kept = GenC10.stress_max / cfg + 1 /\
+  kept = STRESS_MAX / cfg + 1 /\
   stress_hash_range <= cfg * kept <= stress_hash_range + cfg - 1.
 Proof.
   intros Hr kept. subst kept.
-  rewrite (countN_ext (stress_keep cfg) (fun h => h <=? GenC10.stress_max / cfg)).
+  rewrite (countN_ext (stress_keep cfg) (fun h => h <=? STRESS_MAX / cfg)).
   2:{ intros k Hk. apply stress_keep_as_bound; [exact Hr|].
       change stress_hash_range with 18446744073709551616 in *. lia. }
-  pose proof (count_threshold GenC10.stress_max cfg) as H.
-  change GenC10.stress_max with 18446744073709551615 in *.
+  pose proof (count_threshold STRESS_MAX cfg) as H.
+  change STRESS_MAX with 18446744073709551615 in *.
   change stress_hash_range with 18446744073709551616.
   change (18446744073709551615 + 1) with 18446744073709551616 in H.
   specialize (H ltac:(lia) ltac:(lia)). cbv zeta in H. lia.
